@@ -14,12 +14,16 @@ UNBOUNDED = 'bigint'   # integer of arbitrary size
 
 
 class Issue:
-  __slots__ = ('node', 'exc', 'why')
+  __slots__ = ('node', 'exc', 'why', 'positive')
 
-  def __init__(self, node, exc, why):
+  def __init__(self, node, exc, why, positive=False):
     self.node = node
     self.exc = exc      # 'ValueError' | 'Any' | class name
     self.why = why
+    # positive: the analysis has established that this recognised form can raise this class here (an unbounded integer
+    # stored into an int32 field, a `raise` of another class) - as opposed to "this form is not among the recognised
+    # non-raising ones", which only says that the checker cannot classify it
+    self.positive = positive
 
 
 class ClosedWorld:
@@ -35,13 +39,14 @@ class ClosedWorld:
     self.checked = 0       # expression/statement forms examined
     self.stores = 0
     self.handlers = []     # stack of lists of caught classes ('*' = everything)
+    self.narrowed = {}     # expression text -> type established by a range guard on the way
 
   # ------------------------------------------------------------ issues
-  def issue(self, node, exc, why):
+  def issue(self, node, exc, why, positive=False):
     for caught in reversed(self.handlers):
       if '*' in caught or exc in caught or (exc == 'ValueError' and 'Exception' in caught):
         return
-    self.issues.append(Issue(node, exc, why))
+    self.issues.append(Issue(node, exc, why, positive))
 
   # ------------------------------------------------------------ statements
   def run(self):
@@ -77,6 +82,10 @@ class ClosedWorld:
       self.env = dict(saved)
       self.block(st.orelse)
       self.env = self._join(env_then, self.env)
+      # `if <x outside [lo, hi]>: raise / return / continue` - past it, x lies in [lo, hi]; if that is within int32, x is bounded
+      if not st.orelse and U._terminal(st.body):
+        for txt in self._range_established(st.test, negate=True):
+          self.narrowed[txt] = BOUNDED
     elif isinstance(st, ast.For):
       it = self.expr(st.iter)
       self.assign(st.target, self._elem(it, st.iter), st)
@@ -113,7 +122,7 @@ class ClosedWorld:
         for a in st.exc.args:
           self.expr(a)
       if cls not in self.allowed:
-        self.issue(st, cls, 'raises %s, which is not among the allowed classes %s' % (cls, sorted(self.allowed)))
+        self.issue(st, cls, 'raises %s, which is not among the allowed classes %s' % (cls, sorted(self.allowed)), positive=True)
     elif isinstance(st, ast.Return):
       if st.value is not None:
         self.expr(st.value)
@@ -139,6 +148,72 @@ class ClosedWorld:
         out[k] = a[k] if a[k] == b[k] else 'unknown'
       else:
         out[k] = a.get(k, b.get(k))
+    return out
+
+  def _const(self, node):
+    """Integer value of a constant expression (literals, + - * ** on them, module-level constants), else None."""
+    if isinstance(node, ast.Constant) and isinstance(node.value, int) and not isinstance(node.value, bool):
+      return node.value
+    if isinstance(node, ast.UnaryOp) and isinstance(node.op, ast.USub):
+      v = self._const(node.operand)
+      return None if v is None else -v
+    if isinstance(node, ast.BinOp) and isinstance(node.op, (ast.Add, ast.Sub, ast.Mult, ast.Pow)):
+      a, b = self._const(node.left), self._const(node.right)
+      if a is None or b is None or (isinstance(node.op, ast.Pow) and not 0 <= b <= 128):
+        return None
+      return {ast.Add: lambda: a + b, ast.Sub: lambda: a - b, ast.Mult: lambda: a * b, ast.Pow: lambda: a ** b}[type(node.op)]()
+    if isinstance(node, ast.Name):
+      vals = getattr(self.fi.module, 'assigns', {}).get(node.id, [])
+      if len(vals) == 1:
+        return self._const(vals[0])
+    if dotted(node) == 'sys.maxsize':
+      return 2 ** 63 - 1
+    return None
+
+  def _range_established(self, test, negate):
+    """Texts of the expressions x for which (not test, if negate) establishes lo <= x <= hi with [lo, hi] inside int32.
+    Recognised: (not) lo <= x <= hi;  x < lo or hi < x  (negated);  hi < x  (negated, values known non-negative: MIDI data)."""
+    I32 = 2 ** 31 - 1
+    out = []
+    t = test
+    neg = negate
+    while isinstance(t, ast.UnaryOp) and isinstance(t.op, ast.Not):
+      t, neg = t.operand, not neg
+
+    def upper(c):
+      """(x text, hi) if the comparison c, taken as true, says x <= hi / x < hi."""
+      if isinstance(c, ast.Compare) and len(c.ops) == 1:
+        l, r = c.left, c.comparators[0]
+        if isinstance(c.ops[0], (ast.LtE, ast.Lt)) and self._const(r) is not None:
+          return norm_text(l), self._const(r) - (1 if isinstance(c.ops[0], ast.Lt) else 0)
+        if isinstance(c.ops[0], (ast.GtE, ast.Gt)) and self._const(l) is not None:
+          return norm_text(r), self._const(l) - (1 if isinstance(c.ops[0], ast.Gt) else 0)
+      return None
+
+    def too_big(c):
+      """(x text, hi) if the comparison c, taken as FALSE, says x <= hi."""
+      if isinstance(c, ast.Compare) and len(c.ops) == 1:
+        l, r = c.left, c.comparators[0]
+        if isinstance(c.ops[0], (ast.Gt, ast.GtE)) and self._const(r) is not None:
+          return norm_text(l), self._const(r) - (0 if isinstance(c.ops[0], ast.Gt) else 1)
+        if isinstance(c.ops[0], (ast.Lt, ast.LtE)) and self._const(l) is not None:
+          return norm_text(r), self._const(l) - (0 if isinstance(c.ops[0], ast.Lt) else 1)
+      return None
+    if not neg:
+      # the test itself holds
+      if isinstance(t, ast.Compare) and len(t.ops) == 2 and all(isinstance(o, (ast.LtE, ast.Lt)) for o in t.ops):
+        hi = self._const(t.comparators[1])
+        if hi is not None and hi <= I32 + (1 if isinstance(t.ops[1], ast.Lt) else 0):
+          out.append(norm_text(t.comparators[0]))
+      u = upper(t)
+      if u and u[1] <= I32:
+        out.append(u[0])
+    else:
+      parts = t.values if isinstance(t, ast.BoolOp) and isinstance(t.op, ast.Or) else [t]
+      for c in parts:
+        u = too_big(c)
+        if u and u[1] <= I32:
+          out.append(u[0])
     return out
 
   def _narrow(self, test):
@@ -179,38 +254,42 @@ class ClosedWorld:
     else:
       self.issue(tgt, 'Any', 'store through %s is outside the recognised forms' % type(tgt).__name__)
 
-  def store(self, tgt, bt, vt, st):
+  def store(self, tgt, bt, vt, st, field=None):
+    """An attribute store `<msg>.<field> = v`, or (field given) the keyword `field=v` of `<repeated>.add(field=v)`, which
+    protobuf type-checks in the same way.  tgt: the node the finding is reported at."""
     self.stores += 1
     if not (isinstance(bt, tuple) and bt[0] == 'msg'):
       self.issue(tgt, 'Any', 'attribute store on a value that is not a known protobuf message')
       return
     m = self.S.msg(bt[1])
-    f = m.fields.get(tgt.attr) if m else None
+    name = field if field is not None else tgt.attr
+    f = m.fields.get(name) if m else None
     if f is None:
-      self.issue(tgt, 'AttributeError', '%s has no field %s' % (bt[1], tgt.attr))
+      self.issue(tgt, 'AttributeError' if field is None else 'ValueError', '%s has no field %s' % (bt[1], name))
       return
     if f.repeated or f.kind == 'message':
-      self.issue(tgt, 'AttributeError', 'assignment to a repeated/message field %s' % tgt.attr)
+      self.issue(tgt, 'AttributeError', 'assignment to a repeated/message field %s' % name)
       return
     if f.kind == 'enum':
       if vt not in ('enumconst', BOUNDED, 'bool'):
-        self.issue(tgt, 'ValueError', 'enum field %s receives a value of type %s' % (tgt.attr, vt))
+        self.issue(tgt, 'ValueError', 'enum field %s receives a value of type %s' % (name, vt))
       return
     ft = f.type
     if ft in ('double', 'float'):
       if vt not in ('float', BOUNDED, UNBOUNDED, 'bool'):
-        self.issue(tgt, 'TypeError', 'float field %s receives a value of type %s' % (tgt.attr, vt))
+        self.issue(tgt, 'TypeError', 'float field %s receives a value of type %s' % (name, vt))
     elif ft in ('int32', 'sint32', 'sfixed32', 'int64', 'sint64', 'uint32', 'uint64'):
       if vt == UNBOUNDED and ft in ('int32', 'sint32', 'sfixed32', 'uint32'):
-        self.issue(tgt, 'ValueError', 'int32 field %s receives an integer that is not bounded by the MIDI field widths (protobuf raises ValueError when it does not fit)' % tgt.attr)
+        self.issue(tgt, 'ValueError', 'int32 field %s receives an integer that is not bounded by the MIDI field widths (protobuf raises ValueError when it does not fit)' % name,
+                   positive=True)
       elif vt not in (BOUNDED, 'bool', UNBOUNDED):
-        self.issue(tgt, 'TypeError', 'integer field %s receives a value of type %s' % (tgt.attr, vt))
+        self.issue(tgt, 'TypeError', 'integer field %s receives a value of type %s' % (name, vt))
     elif ft == 'bool':
       if vt not in ('bool', BOUNDED):
-        self.issue(tgt, 'TypeError', 'bool field %s receives a value of type %s' % (tgt.attr, vt))
+        self.issue(tgt, 'TypeError', 'bool field %s receives a value of type %s' % (name, vt))
     elif ft in ('string', 'bytes'):
       if vt != 'str':
-        self.issue(tgt, 'TypeError', 'string field %s receives a value of type %s' % (tgt.attr, vt))
+        self.issue(tgt, 'TypeError', 'string field %s receives a value of type %s' % (name, vt))
 
   # ------------------------------------------------------------ expressions
   def expr(self, node):
@@ -249,6 +328,9 @@ class ClosedWorld:
 
   def x_Attribute(self, node):
     d = dotted(node)
+    if norm_text(node) in self.narrowed:
+      self.expr(node.value)
+      return self.narrowed[norm_text(node)]
     if d in self.call_types.get('enumconsts', {}):
       return 'enumconst'
     if d and d.startswith('music_pb2.'):
@@ -423,7 +505,10 @@ class ClosedWorld:
         return bt_
     if isinstance(f, ast.Attribute):
       bt = self.expr(f.value)
-      if isinstance(bt, tuple) and bt[0] == 'rep' and f.attr == 'add' and not node.args and not node.keywords:
+      if isinstance(bt, tuple) and bt[0] == 'rep' and f.attr == 'add' and not node.args and all(k.arg is not None for k in node.keywords):
+        # add(field=value, ...) type-checks every keyword like the corresponding attribute store
+        for k in node.keywords:
+          self.store(k, ('msg', bt[1]), self.expr(k.value), node, field=k.arg)
         return ('msg', bt[1])
       if isinstance(bt, tuple) and bt[0] == 'list' and f.attr == 'append' and len(node.args) == 1:
         if bt[1] == 'unknown' or bt[1] is None:
